@@ -11,6 +11,7 @@ from vlib import eioclient as E
 from vlib import gen
 from vlib import refcodec as R
 
+INTERNAL_EVENTS = ('__disconnect_final',)
 LEVEL = 'exploration'
 TIERS = {
     'quick': {'budget': 60, 'watchdog': 400, 'shards': 1},
@@ -313,8 +314,10 @@ def client_case(ctx, kind, present, evkind, unrelated, has_method, co, rng,
             ctx.violation(None, 'client raised while routing an event: %s'
                           % errs[0]['exc'], w)
             return
+        # (the library's own pseudo-events; a payload string that merely
+        # starts with two underscores is application data)
         internal = [c for c in rec.calls if any(
-            isinstance(x, str) and x.startswith('__') for x in c[1])]
+            isinstance(x, str) and x in INTERNAL_EVENTS for x in c[1])]
         if internal:
             ctx.violation(None, 'an internal event reached an application '
                           'handler: %r' % internal, w)
